@@ -259,10 +259,17 @@ def check(prog, run):
     ae = rc.find_method("add_error")
     shapes.require(ae is not None, "C10.K7: ResolutionContext.add_error not found")
     run.looked_at(ae)
-    last = ae.node.body[-1]
-    ok = isinstance(last, ast.Expr) and isinstance(last.value, ast.Call) and isinstance(last.value.func, ast.Attribute) \
-        and last.value.func.attr == "append" and not any(isinstance(n, ast.Return) for n in ast.walk(ae.node))
-    r.instance("add_error ends with an unconditional append, no early return: %s" % ok)
+    from .. import boolx as _bx
+    try:
+        _ev, _exits = _bx.walk_under(ae.node, lambda t: None)
+    except ValueError as e:
+        raise AnalysisError("C10.K7: add_error: %s" % e)
+    _err = [p for p in ae.params if p != prog.self_name(ae)][0]
+    ok = bool(_exits) and all(
+        kind != "raise" and sum(1 for c in env.get(_bx.CALLS, ()) if isinstance(c.func, ast.Attribute) and c.func.attr == "append"
+                                and ast.unparse(c.func.value) == "self._errors" and c.args and ast.unparse(c.args[0]) == _err) == 1
+        for kind, st, env in _exits)
+    r.instance("add_error appends the error to self._errors exactly once on each of its %d executions: %s" % (len(_exits), ok))
     if not ok:
         run.report(r, "%s:ResolutionContext.add_error:conditional-append" % WRAP, ae.where(),
                    "add_error does not unconditionally append the error (early return or conditional append): a field error can be dropped")
@@ -271,7 +278,9 @@ def check(prog, run):
     ep = rc.find_method("errors")
     shapes.require(ep is not None, "C10.K7: ResolutionContext.errors not found")
     rets = [n for n in own_nodes(ep.node) if isinstance(n, ast.Return)]
-    txt = [ast.unparse(x.value) for x in rets]
+    from ..canon import Canon
+    _cn = Canon(ep.node)
+    txt = [_cn.text(x.value) for x in rets]
     ok = len(rets) == 1 and txt[0] in ("self._errors[:]", "list(self._errors)", "self._errors", "self._errors.copy()")
     r.instance("errors accessor returns %s" % txt)
     if not ok:
